@@ -229,7 +229,7 @@ func libLookup(name string) (libSpec, bool) {
 		"(reflect.StructTag).", "(reflect.Kind).", "(*reflect.rtype).", "reflect.", "time.", "(time.", "os.", "(*os.", "bytes.", "(*bytes.", "bufio.", "(*bufio.", "go/format.", "io.", "io/ioutil.",
 		"(*sync.Mutex).", "(*sync.WaitGroup).", "(*sync.Cond).", "(*sync.RWMutex).", "context.", "golang.org/x/text", "(golang.org/x/text", "gopkg.in/yaml.v3.",
 		"github.com/fxamacker/cbor/v2.", "(*github.com/fxamacker/cbor/v2.", "(github.com/fxamacker/cbor/v2.", "go.arcalot.io/log/v2.", "(*strings.", "sync.", "math/bits.",
-		"(*encoding/json.", "encoding/json.", "(encoding/json.Number).", "(*sync.Once)."} {
+		"(*encoding/json.", "encoding/json.", "(encoding/json.Number).", "(*sync.Once).", "cmp."} {
 		if strings.HasPrefix(name, p) {
 			return libSpec{"fresh", nil}, true
 		}
